@@ -119,20 +119,27 @@ Proof.
   unfold reload_ok. eapply call_ok_mono; eassumption.
 Qed.
 
-(* the classes translated from the current source, Drawer apart *)
-Definition not_drawer (c : search_class) : bool := negb (String.eqb (sc_name c) "Drawer").
-
-Lemma translated_except_drawer : forallb class_ok (filter not_drawer search_classes) = true.
+(* every concrete search class of the CURRENT source (Gen.v, regenerated on every run), Drawer included:
+   a finite fact about the generated signatures, then monotonicity for every subset of the key universe *)
+Lemma translated_classes_ok : forallb class_ok search_classes = true.
 Proof. vm_compute. reflexivity. Qed.
 
-Lemma all_searches_partial (c : search_class) :
-  In c search_classes -> sc_name c <> "Drawer" ->
+Lemma all_searches (c : search_class) :
+  In c search_classes ->
   forall keys, incl keys (serialised_keys c) -> reload_ok c keys = true.
+Proof. intro Hc. exact (classes_sound _ translated_classes_ok c Hc). Qed.
+
+(* the key universe contains what the base classes of NonLinearSearch contribute *)
+Lemma base_args_in_universe (c : search_class) (k : string) :
+  In k (sc_base_args c) -> In k (serialised_keys c).
+Proof. intro H. unfold serialised_keys. apply in_or_app. right. apply in_or_app. left. exact H. Qed.
+
+Lemma keys_known_incl (c : search_class) (keys : list string) :
+  keys_known c keys = true <-> incl keys (serialised_keys c).
 Proof.
-  intros Hc Hn. apply (classes_sound _ translated_except_drawer).
-  apply filter_In. split; [exact Hc|]. unfold not_drawer.
-  destruct (String.eqb (sc_name c) "Drawer") eqn:E; [|reflexivity].
-  apply String.eqb_eq in E. contradiction.
+  unfold keys_known. rewrite forallb_forall. split.
+  - intros H k Hk. apply mem_In. apply H. exact Hk.
+  - intros H k Hk. apply mem_In. apply H. exact Hk.
 Qed.
 
 (* the pinned Drawer: the keys it really persists cannot be fed back *)
